@@ -6,6 +6,7 @@
     eos  <arg> <dict> <sim> <n>   eos_json          → `ok s<hex> <0|1>` | `exc <Name>`
     rocks <LS> <LS> <nAtm> <blocks> <atmos>         → `ok <n> (<k> i.. )*` | `exc <Name>`
     bdy  <blocks> <atmos>                           → `ok <LS>`
+    faces <LS> <nAtm> <blocks> <atmos> <conns>      → `ok <n> (s<block> <k> i..)*` (cells in connection order)
     src  <LS> <nAtm> <gens> <dictSize>              → `ok <n> (s<hex> cell)*` | `exc <Name>`
     whist <items> / wcons <items>                   → `ok <LS>` | `exc AttributeError`
     wshort <short>                                  → `ok s<heading> <LS lines>` | `exc raises`
@@ -221,6 +222,12 @@ def request : P String := do
   | "bdy" => do
     let bs ← pBlocks; let atm ← pRat
     pure ("ok " ++ eList eStr (boundaryBlocks bs atm))
+  | "faces" => do
+    let gn ← pList pStr; let na ← pNat; let bs ← pBlocks; let atm ← pRat
+    let cs ← pList (do let a ← pStr; let b ← pStr; pure (a, b))
+    pure (match boundaryFaces gn na bs atm cs with
+      | .ok fs => "ok " ++ eList (fun f => eStr f.1 ++ " " ++ eList (fun (i : Int) => s!"i{i}") f.2) fs
+      | .error e => "exc " ++ e.toString)
   | "src" => do
     let gn ← pList pStr; let na ← pNat; let gs ← pList pGen; let n ← pNat
     pure (match sources gn na gs n with
